@@ -7,7 +7,7 @@ From Hio Require Import Base.Prelude Base.AMap Base.Time Model.Sched
 
 Section Run.
 Context {T : Type} `{Time T}.
-Implicit Types s a b c : st T.
+Implicit Types s a b : st T.
 
 (* ---------- reading the state through the primitive updates ---------- *)
 
@@ -45,7 +45,7 @@ Definition frame (Xg Xs : list id) s s' : Prop :=
 
 Lemma frame_refl Xg Xs s : frame Xg Xs s s.
 Proof. repeat split; reflexivity. Qed.
-Lemma frame_trans Xg Xs a b c : frame Xg Xs a b -> frame Xg Xs b c -> frame Xg Xs a c.
+Lemma frame_trans Xg Xs a b (c : st T) : frame Xg Xs a b -> frame Xg Xs b c -> frame Xg Xs a c.
 Proof.
   intros (T1 & D1 & G1 & S1) (T2 & D2 & G2 & S2). repeat split; try congruence.
   - intros j Hj. now rewrite G2, G1.
@@ -1157,6 +1157,157 @@ Proof.
     intros [Heq|[]]. subst x. apply NoDup_cons_iff in ND as [N0 _]. contradiction. }
   destruct (its_close_list (rev its) f s1 o O G1 (Forall_rev W) (its_ids_rev _ ND) (ok_deeds _ _ _ _ OK)) as [OK' F'].
   split; [exact OK'|]. destruct F' as (-> & _). reflexivity.
+Qed.
+
+(* ---------- what a pass keeps (static well-formedness) ---------- *)
+
+Lemma its_pass_wf (zb : T) t D : forall (U : list (aitem T)) o U' o',
+  its_pass tk zb t U o = (U', o') ->
+  subl (its_ids U') (its_ids U) /\ (Forall (it_wf D) U -> Forall (it_wf D) U').
+Proof.
+  induction U as [|it U IH]; intros o U' o' E; cbn [its_pass] in E.
+  - inversion E; subst. split; [apply subl_nil|auto].
+  - unfold its_ids. cbn [flat_map]. fold (its_ids U).
+    destruct it as [v|n npc re kids].
+    + destruct (tleb (v_re v) t).
+      * destruct (lv_step tk t v o) as [ov o1] eqn:Es.
+        destruct (its_pass tk zb t U o1) as [r' o2] eqn:Ep. destruct (IH _ _ _ Ep) as [S W].
+        inversion E; subst. destruct ov as [v'|].
+        -- pose proof (lv_step_leaf _ _ _ _ _ _ Es) as Lv.
+           split.
+           ++ unfold its_ids at 1. cbn [flat_map it_ids app]. unfold lv_id at 1 2. rewrite Lv. now apply subl_keep.
+           ++ intro F. apply Forall_cons_iff in F as [Fi FU]. constructor; [|auto].
+              cbn [it_wf] in *. unfold lv_id in *. now rewrite Lv.
+        -- split; [now apply subl_skip|]. intro F. apply Forall_cons_iff in F as [_ FU]. auto.
+      * destruct (its_pass tk zb t U o) as [r' o2] eqn:Ep. destruct (IH _ _ _ Ep) as [S W].
+        inversion E; subst. split.
+        -- unfold its_ids at 1. cbn [flat_map it_ids app]. now apply subl_keep.
+        -- intro F. apply Forall_cons_iff in F as [Fi FU]. constructor; auto.
+    + destruct (tleb re t).
+      * destruct (lvs_pass zb t kids o) as [kids' o1] eqn:Ek.
+        destruct (its_pass tk zb t U o1) as [r' o2] eqn:Ep. destruct (IH _ _ _ Ep) as [S W].
+        pose proof (lvs_pass_subl _ _ _ _ _ _ Ek) as Sk.
+        inversion E; subst. destruct kids' as [|v' kids''].
+        -- split.
+           ++ apply (subl_app [] _ (its_ids r') _); [apply subl_nil_l|exact S].
+           ++ intro F. apply Forall_cons_iff in F as [_ FU]. auto.
+        -- split.
+           ++ unfold its_ids at 1. cbn [flat_map]. fold (its_ids r'). apply subl_app; [|exact S].
+              cbn [it_ids]. apply subl_keep. rewrite !lv_id_map. now apply subl_map.
+           ++ intro F. apply Forall_cons_iff in F as [Fi FU]. constructor; [|auto].
+              cbn [it_wf] in *. destruct Fi as (NV & Dn & DK & VK).
+              split; [exact NV|]. split; [exact Dn|].
+              rewrite <- (Forall_map v_leaf (leaf_in D)) in *.
+              rewrite <- (Forall_map v_leaf (fun l => In (lf_id l) vis)) in *.
+              split; eapply subl_Forall; eassumption.
+      * destruct (its_pass tk zb t U o) as [r' o2] eqn:Ep. destruct (IH _ _ _ Ep) as [S W].
+        inversion E; subst. split.
+        -- unfold its_ids at 1. cbn [flat_map]. fold (its_ids r'). apply subl_app; [apply subl_refl|exact S].
+        -- intro F. apply Forall_cons_iff in F as [Fi FU]. constructor; auto.
+Qed.
+
+(* ---------- the cycle loop ---------- *)
+
+Definition Rep s (its : list (aitem T)) (o : out T) : Prop :=
+  deeds (get_sched s 0%N) = map it_deed its /\ Forall (it_ok s) its /\
+  Forall (it_wf (defs s)) its /\ NoDup (0%N :: its_ids its) /\ out_ok s o.
+
+Lemma close_own_oof_fwd f s i : oof s = true -> oof (close_own tk f s i) = true.
+Proof.
+  apply steps_oof. destruct (frame_all tk f) as (_ & _ & _ & _ & Ico & _). apply Ico. apply st_refl.
+Qed.
+Lemma recur_pass_oof_fwd f s sid s1 r : recur_pass tk f s sid = (s1, r) -> oof s = true -> oof s1 = true.
+Proof.
+  intro E. apply steps_oof. destruct (frame_all tk f) as (_ & _ & _ & _ & _ & _ & _ & _ & _ & Irp & _).
+  eapply Irp; [apply st_refl|exact E].
+Qed.
+
+(* what Doist.do does after one pass *)
+Definition after_pass (c f : nat) (s1 : st T) (r : @gres T) (limit : option T) (stop : T) : st T :=
+  match r with
+  | GRaise true => emit (close_own tk f s1 0%N) DoReturn 0%N
+  | GRaise false => emit (close_own tk f s1 0%N) DoRaise 0%N
+  | GFuel => s1
+  | _ =>
+    let s2 := set_tyme s1 (tadd (tyme s1) tk) in
+    match deeds (get_sched s2 0%N) with
+    | [] => emit (close_own tk f (set_done s2 0%N (Some true)) 0%N) DoReturn 0%N
+    | _ =>
+      if limited limit && tleb stop (tyme s2)
+      then emit (close_own tk f s2 0%N) DoReturn 0%N
+      else cycle_loop tk c f s2 limit stop
+    end
+  end.
+
+Lemma cycle_loop_S c f s limit stop :
+  cycle_loop tk (S c) f s limit stop =
+  after_pass c f (fst (recur_pass tk f s 0%N)) (snd (recur_pass tk f s 0%N)) limit stop.
+Proof. cbn [cycle_loop]. destruct (recur_pass tk f s 0%N) as [s1 r]. reflexivity. Qed.
+
+Lemma cycle_loop_oof_fwd c : forall f s limit stop, oof s = true -> oof (cycle_loop tk c f s limit stop) = true.
+Proof.
+  induction c as [|c IH]; intros f s limit stop O; [reflexivity|].
+  rewrite cycle_loop_S. destruct (recur_pass tk f s 0%N) as [s1 r] eqn:E. cbn [fst snd].
+  pose proof (recur_pass_oof_fwd _ _ _ _ _ E O) as O1.
+  unfold after_pass. destruct r as [t| |[|]|]; cbv zeta;
+    try (rewrite oof_emit; apply close_own_oof_fwd; exact O1); try exact O1.
+  all: destruct (deeds _); [rewrite oof_emit; apply close_own_oof_fwd; exact O1|];
+    destruct (_ && _); [rewrite oof_emit; apply close_own_oof_fwd; exact O1|apply IH; exact O1].
+Qed.
+
+Lemma after_pass_oof c f s1 r limit stop : oof (after_pass c f s1 r limit stop) = false -> oof s1 = false.
+Proof.
+  intro O. destruct (oof s1) eqn:O1; [|reflexivity]. exfalso.
+  assert (X : oof (after_pass c f s1 r limit stop) = true); [|congruence].
+  unfold after_pass. destruct r as [t| |[|]|]; cbv zeta;
+    try (rewrite oof_emit; apply close_own_oof_fwd; exact O1); try exact O1.
+  all: destruct (deeds _); [rewrite oof_emit; apply close_own_oof_fwd; exact O1|];
+    destruct (_ && _); [rewrite oof_emit; apply close_own_oof_fwd; exact O1|apply cycle_loop_oof_fwd; exact O1].
+Qed.
+
+Lemma it_ok_tyme s t it : it_ok s it -> it_ok (set_tyme s t) it.
+Proof. destruct it; cbn [it_ok]; auto. Qed.
+Lemma ok_tyme s t o : out_ok s o -> out_ok (set_tyme s t) o.
+Proof. intros [E D]. split; assumption. Qed.
+
+Hypothesis vis0 : In 0%N vis.
+
+Lemma cycle_spec : forall c f s its o limit stop,
+  oof (cycle_loop tk c f s limit stop) = false -> Rep s its o ->
+  exists t' o', spec_cycles tk (tabs z0) c (tyme s) its o limit stop = Some (t', o') /\
+    tyme (cycle_loop tk c f s limit stop) = t' /\ out_ok (cycle_loop tk c f s limit stop) o'.
+Proof.
+  induction c as [|c IH]; intros f s its o limit stop O (Dq & G & W & ND & OK); [discriminate|].
+  rewrite cycle_loop_S in *. destruct (recur_pass tk f s 0%N) as [s1 r] eqn:E. cbn [fst snd] in *.
+  pose proof (after_pass_oof _ _ _ _ _ _ O) as O1.
+  destruct (root_pass its f s o s1 r E O1 Dq G W ND OK) as (its' & o1 & Hp & -> & Dq1 & G1 & OK1 & F1).
+  assert (T1 : tyme s1 = tyme s) by (destruct F1 as (-> & _); reflexivity).
+  destruct (its_pass_wf (tabs z0) (tyme s) (defs s) its o its' o1 Hp) as [Sub Wf].
+  assert (W1 : Forall (it_wf (defs s1)) its') by (destruct F1 as (_ & -> & _); auto).
+  assert (ND1 : NoDup (0%N :: its_ids its')) by (eapply subl_NoDup; [apply subl_keep; exact Sub|exact ND]).
+  cbn [spec_cycles]. rewrite Hp.
+  unfold after_pass in *. cbv zeta in *. rewrite T1 in *.
+  set (s2 := set_tyme s1 (tadd (tyme s) tk)) in *.
+  change (deeds (get_sched s2 0%N)) with (deeds (get_sched s1 0%N)) in *. rewrite Dq1 in *.
+  change (tyme s2) with (tadd (tyme s) tk) in *.
+  destruct its' as [|it its''].
+  - cbn [map] in *. rewrite oof_emit in O.
+    rewrite close_own_empty in * by (try exact O; rewrite sched_set_done; exact Dq1).
+    eexists _, _. split; [reflexivity|]. split; [reflexivity|].
+    apply (ok_emit_vis (set_deeds (set_done s2 0%N (Some true)) 0%N []) _ DoReturn 0%N vis0).
+    apply ok_deeds. apply ok_done_vis. apply ok_tyme. exact OK1.
+  - cbn [map] in O |- *.
+    destruct (limited limit && tleb stop (tadd (tyme s) tk)).
+    + rewrite oof_emit in O.
+      assert (G2 : Forall (it_ok s2) (it :: its'')).
+      { rewrite Forall_forall in *. intros x Hx. apply it_ok_tyme. now apply G1. }
+      destruct (root_close f s2 (it :: its'') o1 O Dq1 G2 W1 ND1 (ok_tyme _ _ _ OK1)) as [OK' T'].
+      eexists _, _. split; [reflexivity|]. split; [exact T'|].
+      pose proof (ok_emit_vis (close_own tk f s2 0%N) _ DoReturn 0%N vis0 OK') as X.
+      rewrite T' in X. exact X.
+    + apply (IH f s2 (it :: its'') o1 limit stop); [exact O|].
+      split; [exact Dq1|]. split; [|split; [exact W1|split; [exact ND1|apply ok_tyme; exact OK1]]].
+      rewrite Forall_forall in *. intros x Hx. apply it_ok_tyme. now apply G1.
 Qed.
 
 End Run.
